@@ -690,19 +690,20 @@ impl Check for VaultCheck {
             if got {
                 let mut n_share_events = 0;
                 for ev in events.iter().filter(|x| x.contract == vaddr) {
+                    let bad = || violation("events.replay_balances", "malformed", i, format!("event {} of {s:?} does not name its parties / amounts as documented", ev.name));
                     match ev.name.as_str() {
                         "deposit" => {
                             n_share_events += 1;
-                            *ev_shares.entry(w.actor_of(&ev.topics[2]).expect("receiver")).or_insert(0) += ev.data["shares"];
+                            *ev_shares.entry(w.party(ev, 2).ok_or_else(bad)?).or_insert(0) += ev.amt("shares").ok_or_else(bad)?;
                         }
                         "withdraw" => {
                             n_share_events += 1;
-                            *ev_shares.entry(w.actor_of(&ev.topics[2]).expect("owner")).or_insert(0) -= ev.data["shares"];
+                            *ev_shares.entry(w.party(ev, 2).ok_or_else(bad)?).or_insert(0) -= ev.amt("shares").ok_or_else(bad)?;
                         }
                         "transfer" => {
                             n_share_events += 1;
-                            *ev_shares.entry(w.actor_of(&ev.topics[0]).unwrap()).or_insert(0) -= ev.data["amount"];
-                            *ev_shares.entry(w.actor_of(&ev.topics[1]).unwrap()).or_insert(0) += ev.data["amount"];
+                            *ev_shares.entry(w.party(ev, 0).ok_or_else(bad)?).or_insert(0) -= ev.amt("amount").ok_or_else(bad)?;
+                            *ev_shares.entry(w.party(ev, 1).ok_or_else(bad)?).or_insert(0) += ev.amt("amount").ok_or_else(bad)?;
                         }
                         _ => {}
                     }
